@@ -54,6 +54,41 @@ pub fn tcp_substream_with_permit(
     )
 }
 
+/// Drive the real `ProtocolSet::report_substream_open` for a connection with one installed protocol
+/// (`main` + `fallbacks`) and return the `(protocol, fallback)` pair the protocol handler is told.
+pub async fn report_substream_open_names(
+    peer: PeerId,
+    main: crate::ProtocolName,
+    fallbacks: Vec<crate::ProtocolName>,
+    negotiated: crate::ProtocolName,
+    substream: Substream,
+) -> Result<(crate::ProtocolName, Option<crate::ProtocolName>), crate::error::SubstreamError> {
+    use crate::{
+        protocol::{Direction, InnerTransportEvent, ProtocolSet, SubstreamKeepAlive},
+        transport::manager::ProtocolContext,
+    };
+    let (mgr_tx, _mgr_rx) = tokio::sync::mpsc::channel(8);
+    let (tx, mut rx) = tokio::sync::mpsc::channel(8);
+    let context = ProtocolContext {
+        tx,
+        codec: ProtocolCodec::Identity(32),
+        fallback_names: fallbacks,
+        keep_alive: SubstreamKeepAlive::Yes,
+    };
+    let mut set = ProtocolSet::new(
+        crate::types::ConnectionId::from(0usize),
+        mgr_tx,
+        Default::default(),
+        [(main, context)].into_iter().collect(),
+    );
+    let permit = set.try_get_permit().expect("connection handle is alive");
+    set.report_substream_open(peer, negotiated, Direction::Inbound, substream, permit).await?;
+    match rx.try_recv() {
+        Ok(InnerTransportEvent::SubstreamOpened { protocol, fallback, .. }) => Ok((protocol, fallback)),
+        other => panic!("expected SubstreamOpened, got {other:?}"),
+    }
+}
+
 /// Offset clock standing in for `std::time::Instant::now()` in the few components that measure time with
 /// `std::time::Instant` (Kademlia store, `FindNodeContext`, `GetRecordContext`).
 pub mod clock {
